@@ -1,46 +1,51 @@
 #!/usr/bin/env python3
-"""Run the registered checks against every kept seeded change: apply the patch to /repo, run the check of the
-property it breaks (no evidence written), undo. Prints a table and writes seeded/RESULTS.json."""
-import json, os, subprocess, sys
+"""Run the registered checks against every kept seeded change, each in its own scratch worktree of /repo HEAD (checks pointed at it with
+--repo; /repo itself is not touched), in parallel. Default: the check of the property the seed breaks -> seeded/RESULTS.json.
+--all: every check (own / other / undecided) -> seeded/RESULTS_ALL.json.  usage: run_seeds.py [--all] [Cxx | seed-id ...]"""
+import json, os, shutil, subprocess, sys, tempfile
+from concurrent.futures import ThreadPoolExecutor
 V = "/verif"
 ALL = "--all" in sys.argv
 only = set(a for a in sys.argv[1:] if a != "--all")
-res = {}
-assert subprocess.run("git -C /repo status --porcelain --untracked-files=no", shell=True, capture_output=True, text=True).stdout.strip() == "", "/repo not clean"
-for d in sorted(os.listdir(f"{V}/seeded")):
+
+
+def one(d):
     p = f"{V}/seeded/{d}/patch.diff"
-    if not os.path.exists(p):
-        continue
     pid = d.split("-")[0]
-    if only and pid not in only and d not in only:
-        continue
-    if not os.path.exists(f"{V}/rules/{pid.lower()}.py"):
-        res[d] = {"status": "no-check-yet"}
-        print(d, "no-check-yet")
-        continue
-    a = subprocess.run(f"git -C /repo apply {p}", shell=True, capture_output=True, text=True)
-    if a.returncode != 0:
-        a = subprocess.run(f"git -C /repo apply --3way {p}", shell=True, capture_output=True, text=True)
+    wt = tempfile.mkdtemp(prefix=f"sd_{d}_", dir="/tmp"); os.rmdir(wt)
     try:
+        subprocess.run(f"git -C /repo worktree add --detach {wt} HEAD", shell=True, capture_output=True)
+        a = subprocess.run(f"git apply {p}", shell=True, cwd=wt, capture_output=True, text=True)
         if a.returncode != 0:
-            res[d] = {"status": "patch-does-not-apply", "err": a.stderr[-200:]}
-            print(d, "patch-does-not-apply")
-            continue
+            a = subprocess.run(f"git apply --3way {p}", shell=True, cwd=wt, capture_output=True, text=True)
+        if a.returncode != 0:
+            return d, {"status": "patch-does-not-apply", "err": a.stderr[-200:]}, f"{d} patch-does-not-apply"
         if ALL:
-            r = subprocess.run("./check ALL --no-evidence", shell=True, cwd=V, capture_output=True, text=True)
+            r = subprocess.run(f"./check ALL --repo {wt} --no-evidence", shell=True, cwd=V, capture_output=True, text=True)
             hits = [l.split(" ", 2) for l in r.stdout.splitlines() if " exit=1" in l]
             und = [l.split(" ", 1)[0] for l in r.stdout.splitlines() if " exit=2" in l]
             own = [h for h in hits if h[0] == pid]
             status = "caught" if own else ("caught-by-other" if hits else ("fail-closed(exit 2)" if und else "MISSED"))
-            res[d] = {"status": status, "hits": [h[0] for h in hits], "undecided": und, "report": [(h[2] if len(h) > 2 else "")[:260] for h in (own or hits)][:3]}
-            print(d, status, "|", ",".join(h[0] for h in hits), "|", ((own or hits)[0][2][:170] if (own or hits) and len((own or hits)[0]) > 2 else ""), ("| undecided: " + ",".join(und)) if und else "")
-            continue
-        r = subprocess.run(f"./check {pid} --no-evidence", shell=True, cwd=V, capture_output=True, text=True)
-        lines = [l for l in r.stdout.splitlines() if l.startswith("  C") or l.startswith("ANALYSIS")]
+            res = {"status": status, "hits": [h[0] for h in hits], "undecided": und, "report": [(h[2] if len(h) > 2 else "")[:260] for h in (own or hits)][:3]}
+            line = f"{d} {status} | {','.join(h[0] for h in hits)} | {((own or hits)[0][2][:170] if (own or hits) and len((own or hits)[0]) > 2 else '')}" + (f" | undecided: {','.join(und)}" if und else "")
+            return d, res, line
+        r = subprocess.run(f"./check {pid} --repo {wt} --no-evidence", shell=True, cwd=V, capture_output=True, text=True)
+        lines = [l for l in r.stdout.splitlines() if l.startswith("  C") or l.startswith("ANALYSIS-ERROR")]
         status = {0: "MISSED", 1: "caught", 2: "fail-closed(exit 2)"}.get(r.returncode, f"exit {r.returncode}")
-        res[d] = {"status": status, "exit": r.returncode, "report": [l.strip()[:260] for l in lines][:4]}
-        print(d, status, "|", (lines[0].strip()[:200] if lines else ""))
+        res = {"status": status, "exit": r.returncode, "report": [l.strip()[:260] for l in lines][:4]}
+        return d, res, f"{d} {status} | {(lines[0].strip()[:200] if lines else '')}"
     finally:
-        subprocess.run("git -C /repo reset -q --hard HEAD", shell=True)
+        subprocess.run(f"git -C /repo worktree remove --force {wt}", shell=True, capture_output=True)
+        shutil.rmtree(wt, ignore_errors=True)
+
+
+ds = [d for d in sorted(os.listdir(f"{V}/seeded")) if os.path.exists(f"{V}/seeded/{d}/patch.diff") and (not only or d in only or d.split("-")[0] in only)]
+res = {}
+with ThreadPoolExecutor(max_workers=8) as ex:
+    for d, r, line in ex.map(one, ds):
+        res[d] = r
+        print(line, flush=True)
 if not only:
     json.dump(res, open(f"{V}/seeded/RESULTS_ALL.json" if ALL else f"{V}/seeded/RESULTS.json", "w"), indent=1)
+from collections import Counter
+print(Counter(v["status"] for v in res.values()))
